@@ -201,6 +201,59 @@ def _an(f, I):
     return "%s%d" % (I.op, sum(1 for J in f.insts[:I.id] if J.op == I.op))
 
 
+def _alignment_guarded(mod, f, I, ptr, argidx, w):
+    """is the access I (through ptr, into the buffer of parameter argidx of f) dominated by a test that the parameter's address is a
+    multiple of w, and is ptr that parameter plus multiples of w?"""
+    if w not in (2, 4, 8):
+        return False
+    A = aff.Aff(f)
+    v = A.value(tuple(ptr))
+    if argidx is None:
+        # the buffer belongs to a caller: the test must be on the parameter of f through which the pointer arrived
+        roots = [s_ for s_ in v if isinstance(s_, tuple) and s_[0] == "a" and v[s_] == 1 and (f.params[s_[1]]["ty"] or "").endswith("*")]
+        if len(roots) != 1:
+            return False
+        argidx = roots[0][1]
+    base = ("a", argidx)
+    if v.get(base, 0) != 1:
+        return False
+    off = aff.Lin(v)
+    del off[base]
+    fb = bounds.FnBounds(mod, f)
+    if off.get(1, 0) % w or (any(s_ != 1 for s_ in off) and fb._term_gcd(off) % w):
+        return False
+
+    def addr_terms(val, depth=0):
+        """parameters whose addresses are OR-ed into val"""
+        J = f.inst(tuple(val))
+        if J is None or depth > 6:
+            return set()
+        if J.op == "ptrtoint":
+            b_, o_ = ir.ptr_base(f, J.ops[0])
+            return {b_} if (b_[0] == "a" and o_ == 0) else set()
+        if J.op == "or":
+            return addr_terms(J.ops[0], depth + 1) | addr_terms(J.ops[1], depth + 1)
+        if J.op in ("zext", "trunc"):
+            return addr_terms(J.ops[0], depth + 1)
+        return set()
+    for c, truth in ir.conditions_at(f, I.b):
+        C = f.inst(c)
+        if C is None or C.op != "icmp" or C.get("pred") not in ("eq", "ne"):
+            continue
+        if (C.get("pred") == "eq") != truth:
+            continue
+        x, z = C.ops[0], C.ops[1]
+        if not (z[0] == "c" and int(z[1]) == 0):
+            continue
+        M = f.inst(tuple(x))
+        if M is None or M.op != "and":
+            continue
+        for val, msk in ((M.ops[0], M.ops[1]), (M.ops[1], M.ops[0])):
+            if msk[0] == "c" and (int(msk[1]) & (w - 1)) == (w - 1) and base in addr_terms(val):
+                return True
+    return False
+
+
 def bytewise_const_rule(ck, mod, label, width=True):
     """R-C06-BYTEWISE / R-C06-CONST through the points-to part of D-DEP"""
     d = dep.Dep(mod, [], {}, set())
@@ -221,6 +274,15 @@ def bytewise_const_rule(ck, mod, label, width=True):
                 if isbyte:
                     nacc += 1
                     al = I.get("align") or 1
+                    if (al > 1 or I.get("size") > 1) and _alignment_guarded(mod, f, I, ptr, obj[2] if obj[1] == f.name else None, max(al, I.get("size"))):
+                        # a fast path behind a run-time test of the buffer's alignment: the wide access is never misaligned.  Whether its
+                        # value is the little-endian one is checked where values are compared (C01/C02/C08/C09 on this host's IR); that the
+                        # path is compiled for little-endian hosts only is a preprocessor matter this rule does not see
+                        ck.ok("R-C06-BYTEWISE", f.name, "align#%s[%s]" % (_an(f, I), label),
+                              "%d-byte access to caller byte buffer '%s' only behind a run-time alignment test of that buffer, at offsets that are multiples of %d"
+                              % (I.get("size"), prm["name"], max(al, I.get("size"))), where=relpath(I.where))
+                        ck.note("wide access to '%s' at %s behind an alignment test: byte-order dependence not decided here" % (prm["name"], relpath(I.where)))
+                        continue
                     ck.ob(al <= 1, "R-C06-BYTEWISE", f.name, "align#%s[%s]" % (_an(f, I), label),
                           "access to caller byte buffer '%s' of %s claims alignment 1" % (prm["name"], g.name),
                           "%s of %d byte(s) through caller byte buffer '%s' (of %s) claims %d-byte alignment: misaligned access for unaligned buffers"
@@ -314,7 +376,9 @@ def nsw_rule(ck, mod, label):
 
 def witness_rule(ck, build):
     """compile-fail witnesses: the library compiles cleanly with the cast/shift/VLA diagnostics promoted to errors"""
-    flags = ["-fsyntax-only", "-Werror=cast-align", "-Werror=cast-qual", "-Werror=incompatible-pointer-types-discards-qualifiers",
+    # (cast-align is not among them: a byte pointer cast to a word pointer is decided where it is dereferenced - R-C06-BYTEWISE accepts
+    # the access only behind a run-time alignment test of that buffer, and refutes it otherwise)
+    flags = ["-fsyntax-only", "-Werror=cast-qual", "-Werror=incompatible-pointer-types-discards-qualifiers",
              "-Werror=shift-count-overflow", "-Werror=shift-count-negative", "-Werror=vla", "-Werror=array-bounds", "-Werror=uninitialized"]
     n = 0
     vdir = build.variant_dir("H")
@@ -324,7 +388,7 @@ def witness_rule(ck, build):
         n += 1
         first = [l for l in p.stderr.splitlines() if "error:" in l][:1]
         ck.ob(p.returncode == 0, "R-C06-WITNESS", "(translation unit)", "witness:%s" % u["file"],
-              "compiles with cast-align / cast-qual / shift-count / vla / array-bounds / uninitialized as errors",
+              "compiles with cast-qual / shift-count / vla / array-bounds / uninitialized as errors",
               "compile-fail witness: %s" % (first[0].replace(build.repo + "/", "") if first else p.stderr[-200:]), where=u["file"])
     return n
 
@@ -345,7 +409,7 @@ def run(ck, build):
             "generate_tag writes exactly 8 bytes; check_tag's wipe and tinyjambu_clean never write outside the requested bytes (D-COV; whether they cover all of them is C04's / C20's); "
             "HKDF expand writes the left-over bytes, whole and partial blocks at the cursor and zero-fills exactly the rest on refusal, PBKDF2 writes 32 bytes per whole block and exactly the "
             "requested bytes of the last one (from the HKDF / PBKDF2 stream summaries; the values are C13's / C14's)")
-    ck.rule("R-C06-WITNESS", "compile-fail witnesses: all library units compile with cast-align, cast-qual, shift-count, vla, array-bounds, uninitialized promoted to errors")
+    ck.rule("R-C06-WITNESS", "compile-fail witnesses: all library units compile with cast-qual, shift-count, vla, array-bounds, uninitialized promoted to errors")
     ck.not_decided += ["reads of uninitialised local bytes beyond what clang's -Wuninitialized and the mode summaries see", "nsw arithmetic whose operands are loop counters / opaque (listed in notes)",
                        "optimised objects beyond the alignment claims of the -O3 IR; gcc", "zero-length pointers may still be passed to memcpy(…, 0) (defined in C2x; glibc does not touch them)"]
     ck.assume("contracts of tj/bounds.py (sizes of caller buffers as documented in TinyJAMBU.h); private state structs fit in and are no more aligned than the public ones (checked)")
